@@ -1,7 +1,21 @@
 From Coq Require Import ZArith List String Bool.
 Import ListNotations.
-From TD Require Import Lib.Sexp Spec.PySlice Model.SliceM Model.Keys.
+From TD Require Import Lib.Sexp Spec.PySlice Model.SliceM Model.Keys Model.C18_Gbs Model.C18_Names Model.C18_Memo Model.C18_SeqKeys.
 Open Scope string_scope.
+
+(* ---- C18_Names ---- *)
+Definition dec_names (s : sexp) : option (option (list dname)) := dec_opt (dec_list (dec_opt dec_str)) s.
+Definition enc_nres (r : nres) : sexp :=
+  match r with
+  | NOk st => SL [SA "ok"; enc_opt (enc_list (enc_opt enc_str)) st]
+  | NValueError => SA "ValueError"
+  end.
+
+(* ---- C18_Memo: the uncached computation is given as a table (class name -> value, none = Python None) ---- *)
+Definition table_fun (tbl : list (string * option string)) (k : string) : option string :=
+  match find (fun kv => String.eqb (fst kv) k) tbl with Some kv => snd kv | None => None end.
+Definition enc_memo_run (r : list (option string) * list (string * option string)) : sexp :=
+  SL [enc_list (enc_opt enc_str) (fst r); enc_list (enc_pair enc_str (enc_opt enc_str)) (snd r)].
 
 Fixpoint dec_key (s : sexp) : option pykey :=
   match s with
@@ -17,6 +31,12 @@ Fixpoint dec_key (s : sexp) : option pykey :=
 
 Definition enc_keyres (r : keyres) : sexp :=
   match r with RStr s => SL [SA "str"; SA s] | RTup l => SL (SA "tup" :: map SA l) | RRaise => SA "raise" end.
+
+(* the Python VALUE returned by unravel_keys: a str, or a tuple of str / tuples *)
+Definition enc_pyval_key (r : keyres) : sexp :=
+  match r with RStr s => SL [SA "str"; SA s] | RTup l => SL (SA "tup" :: map (fun s => SL [SA "str"; SA s]) l) | RRaise => SA "raise" end.
+Definition enc_keysres (r : keysres) : sexp :=
+  match r with KOne x => enc_pyval_key x | KMany l => SL (SA "tup" :: map enc_pyval_key l) | KRaise => SA "raise" end.
 
 Definition enc_triple (t : Z * Z * Z) : sexp := let '(a, b, c) := t in SL [SA "ok"; SZ a; SZ b; SZ c; SZ (range_len (a,b,c))].
 
@@ -43,5 +63,40 @@ Definition dispatch (cmd : string) (args : list sexp) : option sexp :=
       option_map (fun ks => enc_opt (enc_list enc_keyres) (cpp_unravel_key_list ks)) (dec_list_aux dec_key ks)
   | "unravel-list-py", ks =>
       option_map (fun ks => enc_opt (enc_list enc_keyres) (py_unravel_key_list ks)) (dec_list_aux dec_key ks)
+  | "unravel-keys-cpp", ks => option_map (fun ks => enc_keysres (cpp_unravel_keys ks)) (dec_list_aux dec_key ks)
+  | "unravel-keys-py", ks => option_map (fun ks => enc_keysres (py_unravel_keys ks)) (dec_list_aux dec_key ks)
+  | "gbs-dim", [c; a; b; st; n] =>
+      match dec_bool c, dec_opt dec_Z a, dec_opt dec_Z b, dec_opt dec_Z st, dec_Z n with
+      | Some c, Some a, Some b, Some st, Some n =>
+          Some (match gbs_slice_dim c a b st n with Some d => SZ d | None => SA "raise" end)
+      | _, _, _, _, _ => None
+      end
+  | "names-set", [c; bd; cur; v] =>
+      match dec_bool c, dec_nat bd, dec_names cur, dec_names v with
+      | Some c, Some bd, Some cur, Some v => Some (enc_nres (names_set c bd cur v))
+      | _, _, _, _ => None
+      end
+  | "init-names", [c; bd; v] =>
+      match dec_bool c, dec_nat bd, dec_names v with
+      | Some c, Some bd, Some v => Some (enc_nres (init_names c bd v))
+      | _, _, _ => None
+      end
+  | "new-unsafe-names", [c; istd; bd; v] =>
+      match dec_bool c, dec_bool istd, dec_nat bd, dec_names v with
+      | Some c, Some istd, Some bd, Some v => Some (enc_nres (new_unsafe_names c istd bd v))
+      | _, _, _, _ => None
+      end
+  | "memo-run", [rg; tbl; qs] =>
+      match dec_bool rg, dec_list (dec_pair dec_str (dec_opt dec_str)) tbl, dec_list (dec_pair dec_bool dec_str) qs with
+      | Some rg, Some tbl, Some qs =>
+          Some (enc_memo_run (run String.eqb (table_fun tbl) (fun _ => true) rg qs []))
+      | _, _, _ => None
+      end
+  | "seq-keys", [c; o; t] =>
+      match dec_bool c, dec_list dec_str o, dec_list dec_str t with
+      | Some c, Some o, Some t =>
+          Some (enc_list enc_str ((if c then keys_compile else keys_eager) String.eqb o t))
+      | _, _, _ => None
+      end
   | _, _ => None
   end.
